@@ -144,7 +144,7 @@ def _pm2_off_tree(bw, rnd, used, num, feat):
     return canonical(lens)
 
 
-def pm2_serialise(cmds, rnd, feat=None):
+def pm2_serialise(cmds, rnd, feat=None, omit_final_reread=False):
     feat = feat if feat is not None else set()
     mtf = mtf_init()
     pos = 0
@@ -254,7 +254,8 @@ def pm2_serialise(cmds, rnd, feat=None):
                 emit_off(s, 8)
             feat.add('reread-%d' % (1 if flags[s] else 0))
         feat.add('stage%d' % min(s, 6))
-    for c, (st, sym, osym, extra) in zip(cmds, info):
+    ncmd = len(cmds)
+    for ci, (c, (st, sym, osym, extra)) in enumerate(zip(cmds, info)):
         bw.putcode(tables['c'][sym])
         for e in extra:
             if e[0] == 'OFF':
@@ -266,6 +267,11 @@ def pm2_serialise(cmds, rnd, feat=None):
             pos += 1
             if pos == THRESH[cur]:
                 cur += 1
+                if omit_final_reread and ci == ncmd - 1 and k == n - 1:
+                    # the output ends exactly on a re-read point: nothing follows, so the stream may end here without the tables
+                    # that the decoder would (try to) read next
+                    feat.add('ends-on-reread-point')
+                    break
                 crossed(cur)
                 if n > 1 and k < n - 1:
                     feat.add('midcopy')
